@@ -11,11 +11,14 @@ package clock
 //@   props C14 C11
 //@   lockeffect c.lock -1
 //@   at call close#1 assert deadline-only-after-the-unsuspended-budget:
-//@             finalTotalUnsuspended - currentTotalUnsuspended < c.timeoutThreshold
+//@             finalTotalUnsuspended - currentTotalUnsuspended < c.timeoutThreshold ||
+//@             finalTotalUnsuspended - currentTotalUnsuspended > MaxInt64 || finalTotalUnsuspended - currentTotalUnsuspended < MinInt64
 //@   at call close#1 assert budget-is-the-requested-timeout:
 //@             finalTotalUnsuspended == initialTotalUnsuspended + old(d) ||
 //@             initialTotalUnsuspended + old(d) > MaxInt64 || initialTotalUnsuspended + old(d) < MinInt64
-//@   at call close#1 assert reported-duration-is-unsuspended-time: ctx.unsuspendedDuration == currentTotalUnsuspended - initialTotalUnsuspended
+//@   at call close#1 assert reported-duration-is-unsuspended-time:
+//@             ctx.unsuspendedDuration == currentTotalUnsuspended - initialTotalUnsuspended ||
+//@             currentTotalUnsuspended - initialTotalUnsuspended > MaxInt64 || currentTotalUnsuspended - initialTotalUnsuspended < MinInt64
 //@   at call close#1 assert lock-released: held(c.lock) == -1
 //@   at call close#2 assert lock-released: held(c.lock) == -1
 //@ func (*SuspendableClock).NewTimer$1
